@@ -364,7 +364,7 @@ static std::string death_where(std::string const &err)
   while ((pos = err.find(" in ", pos)) != std::string::npos) {
     size_t eol = err.find('\n', pos);
     std::string fr = err.substr(pos + 4, eol - (pos + 4));
-    if (fr.find("/src/colvar") != std::string::npos) {
+    if (fr.find("/src/colvar") != std::string::npos && fr.find(".cpp:") != std::string::npos) {
       size_t par = fr.find('(');
       std::string fnname = fr.substr(0, par);
       while (fnname.size() && fnname.back() == ' ') fnname.pop_back();
